@@ -36,6 +36,56 @@ def once_events(trace, toppid, top_is_redo):
     return ev
 
 
+def par_replay(trace, deps_by_name, fid_of):
+    """Replay the job events of one invocation through the Lean acceptor Par.step (schedule independence, C07b): a script
+    is started only for an idle target and only because the top level or the command its requester is executing named it;
+    a `redo-ifchange` inside the script of t returns 0 only when everything it named is settled (built and recorded in
+    this run, or found clean); the script ends after its command.  Returns (answer, events, graph string)."""
+    shell_of = {}             # pid of a script's shell -> fid of the target it builds (hook job.child)
+    target_of = {}            # pid of a redo process -> fid of the script that started it directly (None: top level, or a
+                              # helper of the out-of-band rebuild, which is not a command of any script)
+    settled = set()
+    ev = []
+    for pid, ts, name, a in trace:
+        if name == "job.child" and len(a) >= 2 and a[1] == "script":
+            shell_of[pid] = int(a[0])
+        elif name == "run.begin":
+            ppid = int(a[-1]) if a and a[-1].isdigit() else -1
+            target_of[pid] = shell_of.get(ppid)
+        elif name == "job.script":
+            byf = target_of.get(pid)
+            ev.append("st,%s,%s" % (a[0], "-" if byf is None else byf))
+        elif name == "job.decide" and len(a) >= 2 and a[1] == "clean":
+            if int(a[0]) not in settled:
+                ev.append("cl,%s" % a[0]); settled.add(int(a[0]))
+        elif name == "job.record.end" and len(a) >= 2 and a[1] == "0":
+            ev.append("fi,%s" % a[0]); settled.add(int(a[0]))
+        elif name == "run.end" and a and a[0] == "ok":
+            t = target_of.get(pid)
+            if t is not None:
+                ev.append("rt,%d" % t)
+    gs = []
+    for nm, deps in sorted(deps_by_name.items()):
+        if nm not in fid_of:
+            continue
+        ds = [str(fid_of[d]) for d in deps if d in fid_of]
+        gs.append("%d:%d:%s:%s" % (fid_of[nm], fid_of[nm], "_".join(ds) or "-", "_".join(ds) or "-"))
+    graph = ";".join(gs) or "-"
+    ans = run_lines(MODEL, ["par-replay %s - %s" % (graph, ";".join(ev) if ev else "-")])[0]
+    return ans, ev, graph
+
+
+def fids_of(pr):
+    p = pr.path(".redo/db.sqlite3")
+    if not os.path.exists(p):
+        return {}
+    db = sqlite3.connect("file:%s?mode=ro" % p, uri=True, timeout=30)
+    try:
+        return dict((n, i) for i, n in db.execute("select rowid,name from Files"))
+    finally:
+        db.close()
+
+
 def run(ctx):
     rng = random.Random(ctx["seed"] * 29 + 7)
     viol = ctx.setdefault("violations", [])
@@ -96,6 +146,21 @@ def run(ctx):
                     if not ans.startswith("ok") or any(c > 1 for c in counts.values()):
                         p = write_replay("C07", "once-%d" % i, dict(kind="trace-rejected+impl-monitor", scenario=scen, answer=ans, counts=counts, events=ev))
                         viol.append(Violation("C07", p, "redo %s all: a target's script ran more than once in one run (%s; model: %s)" % (" ".join(v), {k: c for k, c in counts.items() if c > 1}, ans)))
+                        break
+                    # schedule independence: the same events through the Par acceptor (guards of C07b's theorems)
+                    dbn = {a: d["deps"] for a, d in g.items()}
+                    dbn["all"] = sorted(n2 for n2 in g if not any(n2 in d["deps"] for d in g.values()))
+                    if family:
+                        dbn["zfam"] = list(fam)
+                        for x in fam:
+                            dbn[x] = []
+                    pans, pev, pgraph = par_replay(r.trace, dbn, fids_of(pr))
+                    stats["par_events"] = stats.get("par_events", 0) + len(pev)
+                    if not pans.startswith("ok"):
+                        p = write_replay("C07", "par-%d" % i, dict(kind="trace-rejected", acceptor="Par.step (RedoModel/Par.lean)", scenario=scen, answer=pans, graph=pgraph, events=pev,
+                                                                    replay="printf 'par-replay %s - %s\\n' | redomodel" % (pgraph, ";".join(pev))))
+                        viol.append(Violation("C07", p, "redo %s all (run %d): job events rejected by the schedule-independence acceptor: %s (event %s)" % (" ".join(v), phase + 1, pans,
+                                      pev[int(pans.split("=")[1])] if "at=" in pans and int(pans.split("=")[1]) < len(pev) else "?")))
                         break
                     contents = {nm: pr.read(nm) for nm in list(g) + ["all"] + fam}
                     seq.append(dict(rc=r.rc, contents=contents, db=db_abstract(pr), counts=counts))
